@@ -119,19 +119,37 @@ def case_term(fn, c, with_erased=False):
         C.cq_list([obs(o) for o in main["steps"]]), obs(main["final"], full=False), alts, extra)
 
 
-def generate(run, n, tag="arb"):
+REASON_CODE = {"AddedOrUpdated": 1, "AddedOrUpdatedWithWarning": 2, "Rejected": 3, "RejectedWithError": 3, "AddedOrUpdatedWithError": 3,
+               "NoIngressMasterFound": 4, "NoVirtualServerFound": 4, "Ignored": 4}
+KIND_OF_RESOURCE = {"ingresses": "Ingress", "virtualservers": "VirtualServer", "virtualserverroutes": "VirtualServerRoute",
+                    "transportservers": "TransportServer"}
+
+
+def ctl_term(c):
+    """the controller-level observations of the main history (harness run with -ctl)"""
+    out = []
+    for st in c["ctl"]:
+        evs = ["(%s, %d)" % (S(e["obj"]), REASON_CODE.get(e["reason"], 9)) for e in st["events"] if not e["obj"].startswith("GlobalConfiguration/")]
+        wr = [S("%s/%s" % (KIND_OF_RESOURCE.get(w["resource"], w["resource"]), w["key"])) for w in st["writes"]]
+        o = {"hosts": st["hosts"], "lhosts": st["lhosts"], "res": st["res"]}
+        ve = st.get("verr") or {}
+        out.append("(mkCtl %s %s %s %s %s)" % (C.cq_list(evs), C.cq_list(wr), obs(o, full=False), C.cq_bool(ve.get("expected", False)), C.cq_bool(ve.get("reported", False))))
+    return C.cq_list(out)
+
+
+def generate(run, n, tag="arb", ctl=False):
     binary = C.go_build("arb")
     out = os.path.join(C.WORK, "cases", "%s_%s_%s.jsonl" % (tag, run.pid, run.tier))
-    rc, log = C.run_harness(binary, ["-seed", str(run.seed), "-n", str(n), "-out", out, "-tier", run.tier], timeout=3000)
+    rc, log = C.run_harness(binary, ["-seed", str(run.seed), "-n", str(n), "-out", out, "-tier", run.tier] + (["-ctl"] if ctl else []), timeout=3000)
     if rc != 0:
         raise C.TieBroken("arb harness failed rc=%d: %s" % (rc, log[-1500:]))
     return C.read_jsonl(out)
 
 
-def replay_cases(run, path):
+def replay_cases(run, path, ctl=False):
     binary = C.go_build("arb")
     out = os.path.join(C.WORK, "cases", "arb_%s_replay.jsonl" % run.pid)
-    rc, log = C.run_harness(binary, ["-replay", path, "-out", out], timeout=600)
+    rc, log = C.run_harness(binary, ["-replay", os.path.abspath(path), "-out", out] + (["-ctl"] if ctl else []), timeout=600)
     if rc != 0:
         raise C.TieBroken("arb harness failed on replay: %s" % log[-1500:])
     return C.read_jsonl(out)
